@@ -130,13 +130,15 @@ def rule_register(ctx: Ctx, fname: str, gpt: bool) -> None:
               f'{fname} iterates {src}; specified: the leaves of the model (get_flattened_modules(model))', loops[0])
     ctx.check(norm(st.targets[0].slice) == md and norm(st.value.elts[0]) == nm, 'REG-UNIQ', f, f'registry[{md}] = ({nm}, layer)', norm(st),
               f'{norm(st)}: the registry must be keyed by the module object and record its qualified name', st)
-    atoms = [(re.sub(r'\s+', ' ', norm(a)), pol, g.via) for g in flow.guards(p, f, st) for a, pol in conjuncts(g.test, g.polarity)]
+    atoms4 = [(re.sub(r'\s+', ' ', norm(a)), pol, g.via, a) for g in flow.guards(p, f, st) for a, pol in conjuncts(g.test, g.polarity)]
+    atoms = [(a, pol, via) for a, pol, via, _n in atoms4]
+    type_vars = _type_vars(p, f, md) if gpt else set()
     pats = f.params[2] if not gpt else 'skip_layers'
     cls_exprs = {f'{md}.__class__.__name__', f'type({md}).__name__'}
     need = {f'any_match({nm}, {pats})': False, 'CLASS': False, f'requires_grad({md})': True}
     seen = set()
     extra = []
-    for a, pol, via in atoms:
+    for a, pol, via, a_node in atoms4:
         if a == f'any_match({nm}, {pats})' and not pol:
             seen.add('name')
         elif any(a == f'any_match({c}, {pats})' for c in cls_exprs) and not pol:
@@ -147,55 +149,102 @@ def rule_register(ctx: Ctx, fname: str, gpt: bool) -> None:
             seen.add('type')
         elif not gpt and a in ('module_helper is not None',) and pol:
             seen.add('type')
-        elif gpt and re.fullmatch(r"module_name == '(ColumnParallelLinear|RowParallelLinear)'\.lower\(\)", a):
-            seen.add('type')
+        elif gpt and _only_about(p, f, a_node, type_vars):
+            pass          # part of the type dispatch: decided by case evaluation below
         else:
             extra.append(('' if pol else 'not ') + a + f' [{via}]')
-    missing = {'name', 'class', 'grad', 'type'} - seen
-    ctx.check(not missing and not extra, rid, f, 'registered iff name and class name unskipped, trainable, supported', 'registration guards',
-              f'{fname}: a layer is registered under conditions {[x for x in atoms]}; missing eligibility conjunct(s) {sorted(missing)}, unexpected {extra}. '
-              'Specified: regex search of every skip pattern in the qualified name and in the class name, all parameters trainable, supported type', st)
     if not gpt:
+        missing = {'name', 'class', 'grad', 'type'} - seen
+        ctx.check(not missing and not extra, rid, f, 'registered iff name and class name unskipped, trainable, supported', 'registration guards',
+                  f'{fname}: a layer is registered under conditions {[x for x in atoms]}; missing eligibility conjunct(s) {sorted(missing)}, unexpected {extra}. '
+                  'Specified: regex search of every skip pattern in the qualified name and in the class name, all parameters trainable, supported type', st)
         # helper comes from get_module_helper(module); layer built from that helper
         d = p.local_defs(f, 'module_helper')
         ctx.check(len(d) == 1 and norm(d[0]) == f'get_module_helper({md})', rid, f, 'type support decided by get_module_helper(module)', 'helper',
                   f'module_helper is {[norm(x) for x in d]}', st)
     else:
-        d = p.local_defs(f, 'module_name')
-        ctx.check(len(d) == 1 and norm(d[0]) == f'{md}.__class__.__name__.lower()', rid, f, 'dispatch on the lower-cased class name only', 'module_name',
-                  f'module_name is {[norm(x) for x in d]}', st)
-        # parallelism tag consistent between helper and layer and class
-        def kind_of(node: ast.AST) -> str | None:
-            gs = [(re.sub(r'\s+', ' ', norm(a)), pol) for g in flow.enclosing_guards(p, f, node) for a, pol in conjuncts(g.test, g.polarity)]
-            return 'output' if ("module_name == 'ColumnParallelLinear'.lower()", True) in gs else ('input' if ("module_name == 'RowParallelLinear'.lower()", True) in gs else None)
+        # the type dispatch, however it is written (if/elif chain, tag variable, table lookup, guard clause), is decided
+        # by evaluating the loop body once per case of the lower-cased class name
+        from kfv import peval
+        consts = peval.module_constants(p.modules[f.module].tree)
+        body = loops[0].body
+        cls_lower = f'{md}.__class__.__name__.lower()'
+        tv_defs = [n for n in p.nodes(f) if isinstance(n, ast.Assign) and len(n.targets) == 1 and isinstance(n.targets[0], ast.Name) and norm(n.value) in (cls_lower, f'type({md}).__name__.lower()')]
+        inline_uses = [n for n in p.nodes(f) if isinstance(n, ast.Call) and norm(n) in (cls_lower, f'type({md}).__name__.lower()')]
+        ctx.check(bool(tv_defs) or bool(inline_uses), rid, f, 'dispatch on the lower-cased class name only', 'module_name',
+                  f'{fname}: the supported-type decision does not use {cls_lower}', st)
+        names = {n.targets[0].id for n in tv_defs}
 
-        for c in [n for n in p.nodes(f) if isinstance(n, ast.Call) and norm(n.func) == 'GPTNeoXKFACEigenLayer']:
-            par = {k.arg: k.value for k in c.keywords}
-            hp = {}
-            if c.args and isinstance(c.args[0], ast.Call):
-                hp = {k.arg: k.value for k in c.args[0].keywords}
-            lv, hv = par.get('parallelism'), hp.get('parallelism')
-            # the tag is either written at the constructor (the constructor is under the class test) or a local
-            # assigned a constant under the class test: one case per reaching definition
-            cases: list[tuple[str | None, str | None, str | None, ast.AST]] = []
-            names = {v.id for v in (lv, hv) if isinstance(v, ast.Name)}
-            if not names:
-                cases.append((kind_of(c), norm(lv) if lv is not None else None, norm(hv) if hv is not None else None, c))
-            elif len(names) == 1:
-                (v,) = names
-                defs = [n for n in p.nodes(f) if isinstance(n, ast.Assign) and any(isinstance(t, ast.Name) and t.id == v for t in n.targets)]
-                for d_ in defs:
-                    val = norm(d_.value) if isinstance(d_.value, ast.Constant) else None
-                    cases.append((kind_of(d_), val if isinstance(lv, ast.Name) else (norm(lv) if lv is not None else None),
-                                  val if isinstance(hv, ast.Name) else (norm(hv) if hv is not None else None), d_))
-                if not defs:
-                    cases.append((None, None, None, c))
-            else:
-                cases.append((None, norm(lv), norm(hv), c))
-            for kind, lt, ht, at in cases:
-                ok = kind is not None and lt == repr(kind) and ht == repr(kind) and norm(par.get('model_parallel_group')) == 'model_parallel_group' if par.get('model_parallel_group') is not None else False
-                ctx.check(ok, rid, f, f'{kind}: layer and helper tagged {kind!r}', norm(at)[:80],
-                          f'{norm(c)[:100]}: ColumnParallelLinear must be registered as output-parallel and RowParallelLinear as input-parallel, consistently in layer and helper (class test {kind}: layer {lt}, helper {ht})', at)
+        class _Sub(ast.NodeTransformer):
+            def __init__(self, val: str) -> None:
+                self.val = val
+
+            def visit_Call(self, n: ast.Call) -> ast.AST:  # noqa: N802
+                if norm(n) in (cls_lower, f'type({md}).__name__.lower()'):
+                    return ast.copy_location(ast.Constant(value=self.val), n)
+                self.generic_visit(n)
+                return n
+        import copy as _copy
+        results = {}
+        for case, val, want in (('ColumnParallelLinear', 'columnparallellinear', 'output'), ('RowParallelLinear', 'rowparallellinear', 'input'), ('any other class', 'linear', None)):
+            body_c = [_Sub(val).visit(_copy.deepcopy(x)) for x in body]
+            store_c = [n for x in body_c for n in ast.walk(x) if isinstance(n, ast.Assign) and len(n.targets) == 1 and isinstance(n.targets[0], ast.Subscript)
+                       and isinstance(n.value, ast.Tuple) and len(n.value.elts) == 2]
+            outs = peval.run_block(body_c, {}, consts, lambda c: norm(c.func) in ('GPTNeoXKFACEigenLayer', 'GPTNeoXLinearModuleHelper'),
+                                   lambda t: True, {id(x) for x in store_c})
+            reg = [o for o in outs if o.marks]
+            if want is None:
+                ctx.check(not reg, rid, f, f'{case}: not registered', f'case other',
+                          f'{fname}: a module whose class is neither ColumnParallelLinear nor RowParallelLinear reaches the registration (unsupported type registered)', st)
+                continue
+            okc = bool(reg)
+            got = []
+            for o in reg:
+                tags = {}
+                for c, env in o.calls:
+                    kw = {k.arg: peval.ev(k.value, env, consts) for k in c.keywords if k.arg}
+                    tags[norm(c.func)] = kw.get('parallelism', peval.UNKNOWN)
+                    if norm(c.func) == 'GPTNeoXKFACEigenLayer':
+                        mpg = [k for k in c.keywords if k.arg == 'model_parallel_group']
+                        okc = okc and bool(mpg) and norm(mpg[0].value) == 'model_parallel_group'
+                got.append(tags)
+                okc = okc and tags.get('GPTNeoXKFACEigenLayer') == want and tags.get('GPTNeoXLinearModuleHelper') == want
+            ctx.check(okc, rid, f, f'{case}: layer and helper tagged {want!r}', f'case {case}',
+                      f'{fname}: for class {case} the registration builds {[{k: peval.text(v) for k, v in t.items()} for t in got] if got else "nothing"}; specified: layer and helper both with parallelism={want!r} '
+                      '(ColumnParallelLinear is output-parallel, RowParallelLinear input-parallel) and the given model-parallel group', st)
+            results[case] = okc
+        if all(results.get(c_) for c_ in ('ColumnParallelLinear', 'RowParallelLinear')):
+            seen.add('type')
+        missing = {'name', 'class', 'grad', 'type'} - seen
+        ctx.check(not missing and not extra, rid, f, 'registered iff name and class name unskipped, trainable, supported', 'registration guards',
+                  f'{fname}: a layer is registered under conditions {[x for x in atoms]}; missing eligibility conjunct(s) {sorted(missing)}, unexpected {extra}. '
+                  'Specified: regex search of every skip pattern in the qualified name and in the class name, all parameters trainable, supported type', st)
+
+
+def _type_vars(p, f, md: str) -> set[str]:  # noqa: ANN001
+    """Locals computed only from the module's class name (transitively)."""
+    out: set[str] = set()
+    changed = True
+    base = (f'{md}.__class__.__name__', f'type({md}).__name__')
+    while changed:
+        changed = False
+        for n in p.nodes(f):
+            if isinstance(n, ast.Assign) and len(n.targets) == 1 and isinstance(n.targets[0], ast.Name) and n.targets[0].id not in out:
+                names = {x.id for x in ast.walk(n.value) if isinstance(x, ast.Name) and isinstance(x.ctx, ast.Load)}
+                txt = norm(n.value)
+                if any(b_ in txt for b_ in base) or (names & out):
+                    rest = names - out - {md}
+                    # other names must be module-level constants / builtins (not locals of f)
+                    if not any(p.local_defs(f, r) or r in f.params for r in rest):
+                        out.add(n.targets[0].id)
+                        changed = True
+    return out
+
+
+def _only_about(p, f, a: ast.expr, type_vars: set[str]) -> bool:  # noqa: ANN001
+    names = {x.id for x in ast.walk(a) if isinstance(x, ast.Name) and isinstance(x.ctx, ast.Load)}
+    local = {n for n in names if p.local_defs(f, n) or n in f.params}
+    return bool(local) and local <= type_vars
 
 
 def rule_hookreg(ctx: Ctx) -> None:
